@@ -187,6 +187,30 @@ class EncStr(T):
         return 'EncStr(%s)' % self.alpha.name
 
 
+class Obj(T):
+    """Parameter type: an instance of real class `cls` owned by the caller, with the listed fields
+    (field name -> T | Const).  Fields not listed are looked up on the class."""
+
+    def __init__(self, cls, fields=None, name=None):
+        self.cls = cls
+        self.fields = dict(fields or {})
+        self.name = name
+
+    def fresh(self, name):
+        o = PObj(self.cls, name=name)
+        for k, ty in self.fields.items():
+            if isinstance(ty, ListOf):
+                o.fields[k] = PList(ty.seq.fresh('%s_%s' % (name, k)))
+            elif isinstance(ty, Obj):
+                o.fields[k] = ty.fresh('%s_%s' % (name, k))
+            else:
+                o.fields[k] = ty.fresh('%s_%s' % (name, k))
+        return o
+
+    def __repr__(self):
+        return 'Obj(%s)' % getattr(self.cls, '__name__', self.cls)
+
+
 class Frame(object):
     def __init__(self, parent=None, vars=None):
         self.vars = dict(vars or {})
@@ -244,6 +268,13 @@ class SpecFn(object):
         return self.rettype.wrap(self.fn(*ts))
 
 
+class Helper(object):
+    """A python-level helper usable in contract expressions: fn(engine, *values) -> value."""
+
+    def __init__(self, fn):
+        self.fn = fn
+
+
 class Loop(object):
     def __init__(self, inv=(), variant=None, types=None, index=None, label=None, ghost_pre=None,
                  ghost_step=None):
@@ -261,7 +292,7 @@ class Contract(object):
 
     def __init__(self, qualname, params, requires=(), ensures=(), loops=(), result=None,
                  raises=None, modifies=(), env=None, lemmas=(), pure=True, yields=None,
-                 self_type=None, notes=None, old=(), may_raise=None, hints=None, pow2=(), uses=None, source=None):
+                 self_type=None, notes=None, old=(), may_raise=None, hints=None, pow2=(), uses=None, source=None, result_cases=()):
         self.qualname = qualname          # 'calmjs.parse.vlq:encode_vlq'
         self.params = params              # ordered dict name -> T | OneOf
         self.requires = list(requires)
@@ -278,6 +309,7 @@ class Contract(object):
         self.pow2 = tuple(pow2)           # names of int variables carrying a ghost 2**n companion
         self.uses = dict(uses or {})      # where -> [lemma instance expressions] (proved lemmas only)
         self.source = source              # glue harness source (composition lemmas over contracts), not repo code
+        self.result_cases = list(result_cases)   # [(condition expr, result expr)]: exact result by cases (used by callers, proved for the body)
 
     @property
     def module(self):
@@ -301,10 +333,17 @@ class Obligation(object):
 
 
 LOG_NAMES = ('logger',)
+STR_REPEAT = z3.Function('str_repeat', z3.StringSort(), z3.IntSort(), z3.StringSort())
 
 PURE_STR_METHODS = ('join', 'split', 'startswith', 'endswith', 'strip', 'rstrip', 'lstrip', 'lower',
                     'upper', 'replace', 'splitlines', 'format', 'find', 'index', 'count', 'isdigit',
                     'encode', 'rsplit', 'partition', 'rpartition', 'isspace')
+
+
+def has_sym(v):
+    if isinstance(v, (tuple, list)):
+        return any(has_sym(x) for x in v)
+    return is_sym(v) or isinstance(v, (PList, PDict, PObj, PGen))
 
 
 def is_pow2(n):
@@ -477,6 +516,8 @@ class Engine(object):
                     self.assume(fact)
             if isinstance(v, PList):
                 self.entry[pname] = PList(v.val if isinstance(v.val, SSeq) else list(v.val))
+            elif isinstance(v, PObj):
+                self.entry[pname] = self.snapshot_obj(v)
             else:
                 self.entry[pname] = v
             if pname in c.pow2 and isinstance(v, SInt):
@@ -506,6 +547,32 @@ class Engine(object):
         for i, e in enumerate(c.ensures):
             self.oblige('%s.post.%d' % (c.funcname, i), self.coerce(self.ev_spec(e, post), Bool),
                         kind='post')
+        if c.result_cases:
+            matched = False
+            for i, (cond, expr) in enumerate(c.result_cases):
+                ct = self.coerce(self.ev_spec(cond, Frame(parent=self.entry_frame())), Bool)
+                if self.decide(ct):
+                    want = self.ev_spec(expr, Frame(parent=self.entry_frame()))
+                    eq = self.compare(ast.Eq(), result, want)
+                    self.oblige('%s.result.case%d' % (c.funcname, i),
+                                z3.BoolVal(eq) if isinstance(eq, bool) else eq.t, kind='post')
+                    matched = True
+                    break
+            if not matched:
+                self.oblige('%s.result.cases_exhaustive' % c.funcname, z3.BoolVal(False), kind='post')
+
+    def snapshot_obj(self, o):
+        c = PObj(o.cls, name=o.name)
+        for k, v in o.fields.items():
+            if isinstance(v, PList):
+                c.fields[k] = PList(v.val if isinstance(v.val, SSeq) else list(v.val))
+            elif isinstance(v, PObj):
+                c.fields[k] = self.snapshot_obj(v)
+            elif isinstance(v, PDict):
+                c.fields[k] = PDict(v.val)
+            else:
+                c.fields[k] = v
+        return c
 
     def check_raise(self, exc, frame):
         c = self.c
@@ -1212,8 +1279,15 @@ class Engine(object):
             if isinstance(op, ast.Add):
                 return SStr(z3.Concat(term_of(a), term_of(b)))
             raise Unsupported('str operator')
-        if isinstance(a, (SStr,)) and isinstance(op, ast.Mult):
-            raise Unsupported('symbolic str repetition')
+        if isinstance(op, ast.Mult) and (isinstance(a, (SStr, str)) and isinstance(b, (SInt, int))) and (is_sym(a) or is_sym(b)):
+            st, n = term_of(a), Int.unwrap(b)
+            r = STR_REPEAT(st, n)
+            # facts of str.__mul__ (assumed model `str-repeat`): length, emptiness, non-positive counts
+            self.assume(z3.Length(r) == z3.If(n > 0, z3.Length(st) * n, 0))
+            self.assume(z3.Implies(n <= 0, r == z3.StringVal('')))
+            self.assume(z3.Implies(n == 1, r == st))
+            self.trusted_used['model:str-repeat'] = self.trusted_used.get('model:str-repeat', 0) + 1
+            return SStr(r)
         ta, tb = Int.unwrap(a), Int.unwrap(b)
         k = type(op).__name__
         if k == 'Add':
@@ -1348,7 +1422,8 @@ class Engine(object):
             if k == 'In':
                 return r
             return (not r) if isinstance(r, bool) else SBool(z3.Not(r.t))
-        if not is_sym(a) and not is_sym(b) and not isinstance(a, (PList, PDict)) and not isinstance(b, (PList, PDict)):
+        if (not has_sym(a) and not has_sym(b) and not isinstance(a, (PList, PDict, PGen))
+                and not isinstance(b, (PList, PDict, PGen))):
             import operator
             f = {'Eq': operator.eq, 'NotEq': operator.ne, 'Lt': operator.lt, 'LtE': operator.le,
                  'Gt': operator.gt, 'GtE': operator.ge}[k]
@@ -1477,6 +1552,8 @@ class Engine(object):
 
     # ------------------------------------------------------------------ subscripts / attributes
     def subscript(self, obj, idx, node=None):
+        if isinstance(obj, PGen) and getattr(self, 'in_spec', False):
+            obj = PList(obj.items) if isinstance(obj.items, list) else obj.items
         if isinstance(obj, PList):
             return self.seq_index(obj.val, idx, node, 'list')
         if isinstance(obj, (tuple, list)):
@@ -1738,6 +1815,8 @@ class Engine(object):
     def call(self, fn, args, kwargs, node):
         if isinstance(fn, SpecFn):
             return fn(self, *args)
+        if isinstance(fn, Helper):
+            return fn.fn(self, *args)
         if hasattr(fn, 'instance') and hasattr(fn, 'statement'):
             ts = [term_of(a) if not isinstance(a, (PList, SSeq, SEnc, PGen)) else self.coerce(a, Seq(Int)) for a in args]
             return SBool(fn.instance(*ts))
@@ -1746,6 +1825,8 @@ class Engine(object):
         if isinstance(fn, PBound):
             return self.call_method(fn.recv, fn.name, args, kwargs, node)
         q = self.qualname_of(fn)
+        if isinstance(fn, types.MethodType):
+            args = [fn.__self__] + list(args)
         if q is not None and q in self.registry and self.registry[q] is not self.c:
             return self.call_contract(self.registry[q], args, kwargs, node)
         if q is not None and q == self.c.qualname:
@@ -1808,7 +1889,34 @@ class Engine(object):
                 self.c = self_c
                 t = self._with_contract(c, lambda: self.coerce(self.ev_spec(r, callee_frame), Bool))
                 self.oblige('%s.call_%s@%s.pre%d' % (self_c.funcname, c.funcname, where, i), t, 'call-pre')
-            if c.yields is not None:
+            self.entry = dict((k, self.snapshot_obj(v) if isinstance(v, PObj) else v) for k, v in vals.items())
+            res = None
+            picked = False
+            if c.result_cases:
+                old_frame = Frame(vars=dict(self.entry))
+                for cond, expr in c.result_cases:
+                    ct = self._with_contract(c, lambda: self.coerce(self.ev_spec(cond, old_frame), Bool))
+                    if self.decide(ct):
+                        res = self._with_contract(c, lambda: self.ev_spec(expr, old_frame))
+                        if c.yields is not None:
+                            res = PGen(self.list_contents(res))
+                        picked = True
+                        break
+                if not picked:
+                    raise PathEnd()
+            for m in c.modifies:
+                pname, fname = m.split('.')
+                obj = vals[pname]
+                cur = obj.fields.get(fname)
+                if isinstance(cur, PList):
+                    if not isinstance(cur.val, SSeq):
+                        cur.val = Seq(Int).wrap(Seq(Int).unwrap(cur.val))
+                    cur.val = SSeq(z3.FreshConst(cur.val.t.sort(), '%s_%s' % (pname, fname)), cur.val.et)
+                else:
+                    obj.fields[fname] = type_of_value(cur).fresh('%s_%s' % (pname, fname))
+            if picked:
+                pass
+            elif c.yields is not None:
                 res = PGen(Seq(c.yields).fresh('ret_' + c.funcname))
             elif c.result is None:
                 res = None
@@ -1859,7 +1967,18 @@ class Engine(object):
         raise Unsupported('method %s on %r' % (name, recv))
 
     def dict_get_sym(self, d, key, default, node):
-        raise Unsupported('dict.get with symbolic key')
+        """concrete dict, symbolic key, default: ite chain (no obligation: .get never raises)"""
+        items = [(k, v) for k, v in d.items() if self.same_kind(k, key)]
+        kt = term_of(key)
+        if not items:
+            return default
+        ty = type_of_value(items[0][1])
+        res = ty.unwrap(default) if default is not None else None
+        if res is None:
+            raise Unsupported('dict.get with symbolic key and None default')
+        for k, v in reversed(items):
+            res = z3.If(kt == term_of(k), ty.unwrap(v), res)
+        return ty.wrap(res)
 
     def list_method(self, lst, name, args, node):
         if name == 'append':
@@ -2011,6 +2130,12 @@ class Engine(object):
             return PSet()
         if isinstance(fn, type) and issubclass(fn, BaseException):
             return PExc(fn, args)
+        if isinstance(fn, type) and issubclass(fn, tuple) and hasattr(fn, '_fields'):
+            if kwargs:
+                args = list(args) + [kwargs[f] for f in fn._fields[len(args):]]
+            if len(args) != len(fn._fields):
+                raise PyRaise(PExc(TypeError, tag='namedtuple arity'))
+            return tuple(args)           # a namedtuple is its tuple of fields
         raise Unsupported('call of %r (no contract, no model)' % (fn,))
 
     def builtin_len(self, v):
@@ -2019,6 +2144,8 @@ class Engine(object):
         if isinstance(v, PDict):
             return len(v.val)
         if isinstance(v, PGen):
+            if getattr(self, 'in_spec', False):
+                return self.builtin_len(v.items if isinstance(v.items, list) else v.items)
             raise PyRaise(PExc(TypeError, tag='len(generator)'))
         if isinstance(v, (SSeq, SStr, SEnc)):
             return SInt(z3.Length(v.t))
